@@ -1023,7 +1023,9 @@ class Exec:
             s2.assume(va if op == '&&' else z3.Not(va))
             nob = len(self.obls)
             vb = self.tobool(self.ev(b, s2))
-            # side effects in rhs are not supported
+            # the right operand runs only under the guard: whatever it changed (++n, a stream extraction, ...) is merged back
+            # under that guard (it used to be dropped: found by tools_vcg_selftest.py)
+            self.adopt_guarded(st, va if op == '&&' else z3.Not(va), s2)
             return BoolV(z3.And(va, vb) if op == '&&' else z3.Or(va, vb))
         va = self.ev(a, st)
         vb = self.ev(b, st)
@@ -1183,7 +1185,40 @@ class Exec:
         m = merge_val(c, a, b)
         if m is None:
             raise ExtractionError(f'{self.unit}: conditional operator arms not mergeable (line {self.curline})')
+        if self.state_differs(st, s1) or self.state_differs(st, s2):
+            # an arm with a side effect: the state after the expression is the arm's state under its condition
+            from .state import merge_states
+            self.replace_state(st, merge_states(c, s1, s2))
         return m
+
+    @staticmethod
+    def state_differs(base, other):
+        for d in ('env', 'scal', 'arr', 'length'):
+            da, db = getattr(base, d), getattr(other, d)
+            for k, v in db.items():
+                if k in da and da[k] is not v:
+                    va_, vb_ = da[k], v
+                    ta, tb = getattr(va_, 't', va_), getattr(vb_, 't', vb_)
+                    try:
+                        if ta is tb or (hasattr(ta, 'eq') and hasattr(tb, 'eq') and ta.eq(tb)):
+                            continue
+                    except Exception:
+                        pass
+                    return True
+        return False
+
+    @staticmethod
+    def replace_state(st, new):
+        for d in ('env', 'scal', 'arr', 'length', 'dims', 'pc', 'ver'):
+            setattr(st, d, getattr(new, d))
+
+    def adopt_guarded(self, st, guard, s2):
+        """st := (guard ? s2 : st) if evaluating under the guard changed anything"""
+        if not self.state_differs(st, s2):
+            return
+        from .state import merge_states
+        keep = st.copy()
+        self.replace_state(st, merge_states(guard, s2, keep))
 
     def lv_ConditionalOperator(self, n, st):
         c = self.tobool(self.ev(n['inner'][0], st))
